@@ -135,6 +135,7 @@ def has_kind(ps: List[Dict[str, Any]], kinds: Tuple[str, ...]) -> bool:
 
 
 MUT = (0x00, 0x01, 0x7F, 0x80, 0xFE, 0xFF)
+SWEEP = (0, 1, 2, 3, 4, 5, 6, 7, 8, 0x7F, 0x80, 0xFE, 0xFF)
 
 
 def process_chunk(args: Tuple[List[Dict[str, Any]], int, int]) -> Dict[str, Any]:
@@ -171,6 +172,7 @@ def process_chunk(args: Tuple[List[Dict[str, Any]], int, int]) -> Dict[str, Any]
         for (entry, obj, rq) in entries:
             results: Dict[str, Dict[str, Any]] = {}
             second_request_done = False
+            swept = False
             static = obj.get_static_bit_length()
             prefix = bytes(obj.coded_const_prefix(request_prefix=rq or b""))
             prefix0 = bytes(obj.coded_const_prefix())     # without knowing the request
@@ -265,6 +267,21 @@ def process_chunk(args: Tuple[List[Dict[str, Any]], int, int]) -> Dict[str, Any]
                             fail("C05", "foreign_exception", rec, entry, {**base, "input": spdu[:k].hex(), "exc": d2["exc"], "msg": d2.get("msg")})
                         elif flag and not d2["exc"]:
                             fail("C05", "truncated_accepted", rec, entry, {**base, "input": spdu[:k].hex(), "decoded": repr(d2["vals"])[:200]})
+                    if spdu and not swept and len(spdu) <= 16:
+                        # once per description: every byte position x small counts and the extremes (a length or count that
+                        # claims more than its item holds while the bytes are there)
+                        swept = True
+                        for pos in range(len(spdu)):
+                            for b in SWEEP:
+                                if spdu[pos] == b:
+                                    continue
+                                m = bytearray(spdu)
+                                m[pos] = b
+                                d3 = codec.real_decode(obj, bytes(m))
+                                st["mutation_decodes"] += 1
+                                if d3["exc"] and not d3["decode_error"]:
+                                    fail("C05", "foreign_exception", rec, entry, {**base, "input": bytes(m).hex(), "exc": d3["exc"],
+                                                                                 "msg": d3.get("msg")})
                     if spdu:
                         for _ in range(3):
                             m = bytearray(spdu)
